@@ -648,10 +648,16 @@ func c10exec(c *h.Ctx, cs *h.Case) {
 						t.fin = "norun"
 					}
 					ctl.mu.Unlock()
-					go func() {
-						_, err := p.r.Send(ctl.r.ServerIdentity, &C10Msg{N: 1000 + k})
-						t.bgErr <- err
-					}()
+					if t.fin == "norun" && ctl.tcp {
+						// nobody listens on R's port any more: on TCP the port may by now belong
+						// to a router of another case running in parallel - do not dial it
+						t.bgErr <- nil
+					} else {
+						go func() {
+							_, err := p.r.Send(ctl.r.ServerIdentity, &C10Msg{N: 1000 + k})
+							t.bgErr <- err
+						}()
+					}
 				}
 			}
 		case "resend":
@@ -890,7 +896,7 @@ func c10gen(c *h.Ctx, yield func(*h.Case)) {
 		}
 	}
 	// random schedules drawn with the shadow: every op is possible where it is issued
-	for i := 0; i < c.Pick(60, 1200); i++ {
+	for i := 0; i < c.Pick(150, 4000); i++ {
 		if c.TooManyFails() {
 			break
 		}
@@ -966,7 +972,7 @@ func c10gen(c *h.Ctx, yield func(*h.Case)) {
 		}
 		emit("server:close-with-running", []string{"srv " + tr, "srvstart", "srvstart", "srvstart", "srvclose", "srvdone 1", "srvstart", "srvclose"})
 	}
-	for i := 0; i < c.Pick(4, 40); i++ {
+	for i := 0; i < c.Pick(6, 100); i++ {
 		ops := []string{"srv " + transports[r.Intn(2)]}
 		n, closed := 0, 0
 		for s := 0; s < 3+r.Intn(8); s++ {
